@@ -9,6 +9,12 @@ pub struct ParseError<'input> {
     pub file_info: &'input FileInfo,
 }
 
+/// The configuration of every diagnostic report: spans are byte ranges of the source text,
+/// while ariadne counts characters by default.
+pub fn report_config() -> ariadne::Config {
+    ariadne::Config::default().with_index_type(ariadne::IndexType::Byte)
+}
+
 impl ParseError<'_> {
     /// Create an Ariadne report for this parse error.
     pub fn to_report(&self) -> Report<'static, (PathDisplay, std::ops::Range<usize>)> {
@@ -21,12 +27,14 @@ impl ParseError<'_> {
                 ReportKind::Error,
                 (PathDisplay::from(std::path::PathBuf::from("<internal>")), 0..0),
             )
+            .with_config(report_config())
             .with_message("Parse error")
             .with_note(error.to_string())
             .finish(),
             | InvalidToken { location } => {
                 let location_str = info.trans_span2(*location);
                 Report::build(ReportKind::Error, (file_path.clone(), *location..*location))
+                    .with_config(report_config())
                     .with_message("Invalid token")
                     .with_label(
                         Label::new((file_path.clone(), *location..*location))
@@ -39,6 +47,7 @@ impl ParseError<'_> {
                 let expected_msg = fmt_expected(expected);
                 let mut report =
                     Report::build(ReportKind::Error, (file_path.clone(), *location..*location))
+                        .with_config(report_config())
                         .with_message("Unrecognized EOF")
                         .with_label(
                             Label::new((file_path.clone(), *location..*location)).with_message(
@@ -56,6 +65,7 @@ impl ParseError<'_> {
                 let expected_msg = fmt_expected(expected);
                 let mut report =
                     Report::build(ReportKind::Error, (file_path.clone(), *start..*end))
+                        .with_config(report_config())
                         .with_message(format!("Unrecognized token `{}`", token))
                         .with_label(Label::new((file_path.clone(), *start..*end)).with_message(
                             format!(
@@ -72,6 +82,7 @@ impl ParseError<'_> {
                 let start_str = info.trans_span2(*start);
                 let end_str = info.trans_span2(*end);
                 Report::build(ReportKind::Error, (file_path.clone(), *start..*end))
+                    .with_config(report_config())
                     .with_message(format!("Extra token `{}`", token))
                     .with_label(Label::new((file_path.clone(), *start..*end)).with_message(
                         format!("extra token `{}` found at {} - {}", token, start_str, end_str),
